@@ -5,7 +5,7 @@
    UpdateMaxProbe never under-approximates, the growth policy does not shrink / probing reaches every bucket,
    CalcCapacity <= physical size); they are proved below for the kinds used by the extracted model. *)
 From Coq Require Import ZArith List Bool Permutation.
-From C11 Require Import GrowModel GenTie.
+From C11 Require Import GrowModel GenTie GenGrow GenFull.
 Import ListNotations.
 Local Open Scope Z_scope.
 
@@ -338,6 +338,160 @@ Theorem C11_model_parameters_are_source :
          src_capacity c (2 ^ L) = cfg_cc c (2 ^ L) /\ src_shift c (2 ^ L) = cfg_sh c (2 ^ L).
 Proof. exact model_parameters_are_source. Qed.
 Print Assumptions C11_model_parameters_are_source.
+
+(* T-gen tie of the growth decision.  HashSet::pvGetNewLogBucketCount, the size loop of pvAddGrow (7a001ad) with its
+   length_error bound (f76c2d4) and the resulting mCapacity / bucket-array size are regenerated from HashSet.h on every run
+   (Gen_HashSetGrow.v; traits object, bucket arrays and memory manager are abstract).  Whenever the hand model's `hadd`
+   chooses the table size 2^r (grow_log, any fuel) with r <= 63, the GENERATED loop chooses the same r and the same
+   capacity. *)
+Theorem C11_growth_decision_is_source :
+  forall (mc : Z) (calcCapacity : Z -> Z) (count nl0 r ht cap0 : Z),
+         0 <= nl0 <= 63 ->
+         r <= 63 ->
+         grow_log calcCapacity (Z.to_nat count + 2) nl0 count = Some r ->
+         Gen_HashSetGrow.pvAddGrow_loop0 mc (fun bc _ : Z => calcCapacity bc) Gen_HashSetGrow.fuel_of_pvAddGrow ht count cap0 nl0 =
+         GenPrelude.Ok (None, (calcCapacity (2 ^ r), r)).
+Proof. exact growth_decision_is_source. Qed.
+Print Assumptions C11_growth_decision_is_source.
+
+(* the same for the size loop of Reserve and the hand model's reserve_log. *)
+Theorem C11_reserve_decision_is_source :
+  forall (mc : Z) (calcCapacity : Z -> Z) (cap nl0 r ht cap0 : Z),
+         0 <= nl0 <= 63 ->
+         r <= 63 ->
+         reserve_log calcCapacity 64 nl0 cap = Some r ->
+         Gen_HashSetGrow.Reserve_loop0 mc (fun bc _ : Z => calcCapacity bc) Gen_HashSetGrow.fuel_of_Reserve cap ht cap0 nl0 =
+         GenPrelude.Ok (None, (calcCapacity (2 ^ r), r)).
+Proof. exact reserve_decision_is_source. Qed.
+Print Assumptions C11_reserve_decision_is_source.
+
+(* the fuel / RCheck branch of the hand model as a theorem about the generated loop: with its 70 units of fuel it never runs out of fuel, and it throws std::length_error (f76c2d4) exactly when no table of at most 2^63 buckets has a capacity above mCount. *)
+Theorem C11_size_loops_throw_only_beyond_2_63 :
+  forall (mc : Z) (calcCapacity : Z -> Z) (count nl0 ht cap0 : Z),
+         0 <= nl0 <= 63 ->
+         (Gen_HashSetGrow.pvAddGrow_loop0 mc (fun bc _ : Z => calcCapacity bc) Gen_HashSetGrow.fuel_of_pvAddGrow ht count cap0 nl0 =
+          GenPrelude.Exn <-> (forall L : Z, nl0 <= L <= 63 -> calcCapacity (2 ^ L) <= count)) /\
+         Gen_HashSetGrow.pvAddGrow_loop0 mc (fun bc _ : Z => calcCapacity bc) Gen_HashSetGrow.fuel_of_pvAddGrow ht count cap0 nl0 <>
+         GenPrelude.Fuel.
+Proof. exact size_loops_throw_only_beyond_2_63. Qed.
+Print Assumptions C11_size_loops_throw_only_beyond_2_63.
+
+(* generated pvGetNewLogBucketCount = the hand model's newLog (and it is the MOMO_CHECK(shift > 0) that fails, `Stuck`, when GetBucketCountShift answers 0). *)
+Theorem C11_gen_new_log_head :
+  forall (B : Type) (mc logStart : Z) (shift : Z -> Z) (t : table B) (r : list (table B)) (cnt capa mb ht : Z),
+         mb <> 0 ->
+         0 <= tlog B t <= 63 ->
+         0 <= tlog B t + shift (2 ^ tlog B t) < 2 ^ 64 ->
+         Gen_HashSetGrow.pvGetNewLogBucketCount mc logStart (fun bc _ : Z => shift bc) (tlog B t) cnt capa mb ht =
+         (if 0 <? shift (2 ^ tlog B t) then GenPrelude.Ok (newLog B logStart shift (t :: r)) else GenPrelude.Stuck).
+Proof. exact gen_new_log_head. Qed.
+Print Assumptions C11_gen_new_log_head.
+
+(* ... and = GetLogStartBucketCount() for a bucket-less container. *)
+Theorem C11_gen_new_log_empty :
+  forall (B : Type) (mc logStart : Z) (shift : Z -> Z) (blog cnt capa ht : Z),
+         Gen_HashSetGrow.pvGetNewLogBucketCount mc logStart (fun bc _ : Z => shift bc) blog cnt capa 0 ht =
+         GenPrelude.Ok (newLog B logStart shift []).
+Proof. exact gen_new_log_empty. Qed.
+Print Assumptions C11_gen_new_log_empty.
+
+(* the "Hash table is full" clause down to the bytes, BucketOpen2N2<3>: whenever the bytes of the buckets of the real
+   newest table represent the model table (byte invariant of C13's BucketOps + count bits = number of items, preserved by the
+   GENERATED AddCrt / Remove / pvSetEmpty: o2_add, o2_remove, o2_empty), an insertion under refused growth answers "Hash table
+   is full" exactly when the GENERATED IsFull -- the test pvAddNogrow performs -- is true on every bucket. *)
+Theorem C11_refused_insert_full_iff_generated_IsFull_o2 :
+  forall (B : Type) (b0 : B) (decode : Z -> B -> Z) (upd_bound : B -> Z -> B) (h : Z -> Z) (wf0 : bool) 
+           (wfull : Z -> bool) (start : Z -> Z -> Z) (next : Z -> Z -> Z -> Z) (logStart : Z) (calcCapacity shift : Z -> Z)
+           (nothrowReloc : bool),
+         kind_ok B decode upd_bound 3 wfull start next logStart shift ->
+         kind_ok2 3 start next calcCapacity ->
+         kind_ok3 calcCapacity ->
+         forall (s : hset B) (t : table B) (r : list (table B)) (k : Z) (sch : list bool) (ds : list BucketOps.O2.st),
+         Inv B b0 decode h 3 wf0 start next nothrowReloc s ->
+         gens B s = t :: r ->
+         ~ In k (abs B s) ->
+         (count B s <? capacity B s) = false ->
+         Forall2 (rel_o2 B) ds (tbs B t) ->
+         step B b0 decode upd_bound h 3 wf0 wfull start next logStart calcCapacity shift nothrowReloc s
+           (OInsert k false false true sch) = Some (s, RFull) <->
+         (forall d : BucketOps.O2.st, In d ds -> BucketOps.O2.full d = true).
+Proof. exact refused_insert_full_iff_generated_IsFull_o2. Qed.
+Print Assumptions C11_refused_insert_full_iff_generated_IsFull_o2.
+
+(* the same for BucketOpenN1<maxCount, reverse> (BucketOpen8 = maxCount 7, reverse false). *)
+Theorem C11_refused_insert_full_iff_generated_IsFull_n1 :
+  forall (B : Type) (b0 : B) (decode : Z -> B -> Z) (upd_bound : B -> Z -> B) (h : Z -> Z) (wf0 : bool) 
+           (wfull : Z -> bool) (start : Z -> Z -> Z) (next : Z -> Z -> Z -> Z) (logStart : Z) (calcCapacity shift : Z -> Z)
+           (nothrowReloc rv : bool) (mc : Z),
+         1 <= mc <= 7 ->
+         kind_ok B decode upd_bound mc wfull start next logStart shift ->
+         kind_ok2 mc start next calcCapacity ->
+         kind_ok3 calcCapacity ->
+         forall (s : hset B) (t : table B) (r : list (table B)) (k : Z) (sch : list bool) (ds : list (Z -> Z)),
+         Inv B b0 decode h mc wf0 start next nothrowReloc s ->
+         gens B s = t :: r ->
+         ~ In k (abs B s) ->
+         (count B s <? capacity B s) = false ->
+         Forall2 (rel_n1 B rv mc) ds (tbs B t) ->
+         step B b0 decode upd_bound h mc wf0 wfull start next logStart calcCapacity shift nothrowReloc s
+           (OInsert k false false true sch) = Some (s, RFull) <->
+         (forall d : Z -> Z, In d ds -> Gen_OpenN1_ops.IsFull rv mc d = true).
+Proof. exact refused_insert_full_iff_generated_IsFull_n1. Qed.
+Print Assumptions C11_refused_insert_full_iff_generated_IsFull_n1.
+
+(* generated BucketOpen2N2::IsFull on the bytes = the model's isFull (maxCount <= number of items) under the abstraction relation. *)
+Theorem C11_o2_full_agrees :
+  forall (B : Type) (d : BucketOps.O2.st) (b : bucket B), rel_o2 B d b -> BucketOps.O2.full d = isFull B 3 b.
+Proof. exact o2_full_agrees. Qed.
+Print Assumptions C11_o2_full_agrees.
+
+(* generated AddCrt keeps the abstraction relation (one more item). *)
+Theorem C11_o2_add :
+  forall (B : Type) (a : Z * Z * Z * Z) (d : BucketOps.O2.st) (b : bucket B) (k : Z) (wf : bool) (bd : B),
+         rel_o2 B d b ->
+         isFull B 3 b = false -> rel_o2 B (BucketOps.O2.addP a d) {| items := items B b ++ [k]; wasFull := wf; bound := bd |}.
+Proof. exact o2_add. Qed.
+Print Assumptions C11_o2_add.
+
+(* generated Remove keeps the abstraction relation (one item less). *)
+Theorem C11_o2_remove :
+  forall (B : Type) (a : Z * Z * Z * Z) (d d' : BucketOps.O2.st) (b : bucket B) (its : list Z) (wf : bool) (bd : B),
+         rel_o2 B d b ->
+         (0 < length (items B b))%nat ->
+         BucketOps.O2.remP a d = Some d' ->
+         S (length its) = length (items B b) -> rel_o2 B d' {| items := its; wasFull := wf; bound := bd |}.
+Proof. exact o2_remove. Qed.
+Print Assumptions C11_o2_remove.
+
+(* generated BucketOpenN1::IsFull = the model's isFull, for every maxCount 1..7 and both layouts. *)
+Theorem C11_n1_full_agrees :
+  forall (B : Type) (rv : bool) (mc : Z),
+         1 <= mc <= 7 -> forall (d : Z -> Z) (b : bucket B), rel_n1 B rv mc d b -> Gen_OpenN1_ops.IsFull rv mc d = isFull B mc b.
+Proof. exact n1_full_agrees. Qed.
+Print Assumptions C11_n1_full_agrees.
+
+(* generated BucketOpenN1::AddCrt keeps the abstraction relation. *)
+Theorem C11_n1_add :
+  forall (B : Type) (rv : bool) (mc : Z),
+         1 <= mc <= 7 ->
+         forall (a : Z * Z * Z * Z) (d : Z -> Z) (b : bucket B) (k : Z) (wf : bool) (bd : B),
+         rel_n1 B rv mc d b ->
+         isFull B mc b = false ->
+         rel_n1 B rv mc (BucketOps.N1.addP rv mc a d) {| items := items B b ++ [k]; wasFull := wf; bound := bd |}.
+Proof. exact n1_add. Qed.
+Print Assumptions C11_n1_add.
+
+(* generated BucketOpenN1::Remove keeps the abstraction relation. *)
+Theorem C11_n1_remove :
+  forall (B : Type) (rv : bool) (mc : Z),
+         1 <= mc <= 7 ->
+         forall (a : Z * Z * Z * Z) (d d' : Z -> Z) (b : bucket B) (its : list Z) (wf : bool) (bd : B),
+         rel_n1 B rv mc d b ->
+         (0 < length (items B b))%nat ->
+         BucketOps.N1.remP rv mc a d = Some d' ->
+         S (length its) = length (items B b) -> rel_n1 B rv mc d' {| items := its; wasFull := wf; bound := bd |}.
+Proof. exact n1_remove. Qed.
+Print Assumptions C11_n1_remove.
 
 (* HashBucketOpen2N2<1> and HashBucketOpen2N2<3> translate to the same Gallina (maxCount is a Section variable): one proof covers all instantiations. *)
 Theorem C11_same_code_open2n2_policy :
